@@ -66,7 +66,7 @@ var clientSites = []string{"c.doClose.pre", "c.doClose.teardown", "c.doClose.rea
 const maxHold = 50 * time.Millisecond
 
 var kinds = []string{"normal", "normal", "normal", "mutate", "mutate", "targeted", "targeted", "targeted", "drop", "dup", "delay", "frames", "request",
-	"close-before", "close-after", "rst", "silent", "flood", "status", "cseq", "redirect"}
+	"close-before", "close-after", "rst", "silent", "flood", "auth401", "status", "cseq", "redirect"}
 
 func gen(seed uint64, tier string) Scenario {
 	r := core.NewRand(seed, "c12")
@@ -155,6 +155,9 @@ type fakeServer struct {
 	udp   []net.PacketConn
 	wg    sync.WaitGroup
 	stop  chan struct{}
+	// always401: every further request is answered 401 with a fresh challenge
+	always401 bool
+	n401      int
 }
 
 func (fs *fakeServer) behaviour() Behaviour {
@@ -162,6 +165,9 @@ func (fs *fakeServer) behaviour() Behaviour {
 	defer fs.mu.Unlock()
 	i := fs.nreq
 	fs.nreq++
+	if fs.always401 {
+		return Behaviour{Kind: "auth401-sticky", Arg: i}
+	}
 	if i < len(fs.sc.Behaviours) {
 		return fs.sc.Behaviours[i]
 	}
@@ -432,6 +438,26 @@ func (fs *fakeServer) handle(nc net.Conn) {
 			case <-time.After(10 * time.Minute):
 			}
 			return
+		case "auth401":
+			// from now on every request is refused with a fresh, well-formed challenge - also the
+			// authenticated retry (wrong password / a server that rotates its nonce every time)
+			fs.mu.Lock()
+			fs.always401 = true
+			fs.mu.Unlock()
+			fallthrough
+		case "auth401-sticky":
+			fs.mu.Lock()
+			fs.n401++
+			k := fs.n401
+			fs.mu.Unlock()
+			ch := fmt.Sprintf(`Digest realm="r", nonce="n%d"`, k)
+			if b.Arg%3 == 0 {
+				ch = `Basic realm="r"`
+			}
+			r := &base.Response{StatusCode: base.StatusUnauthorized, Header: base.Header{"CSeq": req.Header["CSeq"], "WWW-Authenticate": base.HeaderValue{ch}}}
+			if !send(r) {
+				return
+			}
 		case "flood":
 			// the request is never answered, but the connection is anything but silent: responses
 			// that answer nothing (foreign CSeq) and / or server requests keep arriving more often
